@@ -214,11 +214,12 @@ def shard_main(args):
         cls = prop.machine(tier, sink)
         cls = hseed(seed_value)(cls)
         run_state_machine_as_test(cls, settings=_hyp_settings(n, shrink, steps))
-      else:
+      if hasattr(prop, 'strategy'):
         strat = prop.strategy(tier)
+        n_given = n if not hasattr(prop, 'machine') else max(1, prop.BUDGET_GIVEN[tier] // NSHARDS)
 
         @hseed(seed_value)
-        @_hyp_settings(n, shrink)
+        @_hyp_settings(n_given, shrink)
         @given(strat)
         def test(spec):
           state.handle(spec, safe_run(prop, spec))
@@ -242,7 +243,7 @@ def enum_main(args):
     prop = load_prop(prop_id)
     state = State(prop, suspended)
     fails = []
-    for i, spec in enumerate(prop.enumerate(tier)):
+    for i, spec in enumerate(prop.enumerate_cases(tier)):
       if i % hi != lo:
         continue
       fresh = state.handle(spec, safe_run(prop, spec), raise_on_fail=False)
@@ -336,7 +337,7 @@ def run_check(prop_id, tier, seed_value, replay=None):
   ctx = mp.get_context('fork')
   exhaustive = False
   # 2. finite sub-domain, if the property has one
-  if hasattr(prop, 'enumerate'):
+  if hasattr(prop, 'enumerate_cases'):
     with ctx.Pool(NSHARDS) as pool:
       parts = pool.map(enum_main, [(prop_id, tier, i, NSHARDS, sorted(suspended)) for i in range(NSHARDS)])
     for p in parts:
@@ -401,7 +402,8 @@ def run_check(prop_id, tier, seed_value, replay=None):
       'wall_s': round(wall, 2),
       'violations': len(failures),
   }
-  os.makedirs(os.path.join(HERE, 'evidence'), exist_ok=True)
+  ev_dir = os.environ.get('VERIF_EVIDENCE_DIR') or os.path.join(HERE, 'evidence')
+  os.makedirs(ev_dir, exist_ok=True)
   try:
     import jsonschema
     with open(os.path.join(HERE, 'vmm', 'EVIDENCE.schema.json')) as f:
@@ -413,7 +415,7 @@ def run_check(prop_id, tier, seed_value, replay=None):
   except Exception as e:
     print('HARNESS-ERROR property=%s evidence does not validate: %s' % (prop_id, str(e)[:500]))
     return 2
-  with open(os.path.join(HERE, 'evidence', '%s.json' % prop_id), 'w') as f:
+  with open(os.path.join(ev_dir, '%s.json' % prop_id), 'w') as f:
     json.dump(evidence, f, indent=1, sort_keys=True)
 
   print('%s tier=%s seed=%d evaluations=%d distinct_nontrivial=%d dontcare=%d wall=%.1fs' % (
